@@ -1,30 +1,30 @@
 #!/bin/bash
-# seedimport.sh <id> [name] : verify a seeded change produced in /tmp/seed/<id> and store it under /verif/seeded/<name>
+# [SEEDBASE=/tmp/seed2] [DEMOTAGS="-tags verif"] seedimport.sh <id> [name] : verify a seeded change produced in /tmp/seed/<id> and store it under /verif/seeded/<name>
 set -u
-ID=$1; NAME=${2:-$1}; WT=/tmp/seed/$ID; OUT=/verif/seeded/$NAME
+ID=$1; NAME=${2:-$1}; BASE=${SEEDBASE:-/tmp/seed}; WT=$BASE/$ID; OUT=/verif/seeded/$NAME; TAGS=${DEMOTAGS:-}
 . /verif/env.sh
 cd $WT || exit 1
-git diff > /tmp/seed/$ID.patch
-[ -s /tmp/seed/$ID.patch ] || { echo "no tracked change in $WT"; exit 1; }
+git diff > $BASE/$ID.patch
+[ -s $BASE/$ID.patch ] || { echo "no tracked change in $WT"; exit 1; }
 DEMOS=$(git ls-files --others --exclude-standard | grep '_test.go$')
 echo "patch: $(git diff --stat | tail -1)"; echo "demo files: $DEMOS"
 PKGS=$(git diff --name-only | xargs -n1 dirname | sort -u | sed 's|^|./|')
 DEMOPKGS=$(for f in $DEMOS; do echo ./$(dirname $f); done | sort -u)
 echo "== build"; go build ./... || exit 1
 echo "== existing tests of touched packages (+ dependants) with change (demo files moved aside)"
-mkdir -p /tmp/seed/$ID.demo; for f in $DEMOS; do mkdir -p /tmp/seed/$ID.demo/$(dirname $f); mv $f /tmp/seed/$ID.demo/$f; done
+mkdir -p $BASE/$ID.demo; for f in $DEMOS; do mkdir -p $BASE/$ID.demo/$(dirname $f); mv $f $BASE/$ID.demo/$f; done
 go test -count=1 -timeout 20m $(go list ./... | grep -v '^github.com/markkurossi/mpc$') 2>&1 | grep -v '^ok\|no test files' | head -20
 echo "   (root TestSuite:)"; go test -count=1 -timeout 20m . 2>&1 | grep 'testsuite_test.go:1[0-9][0-9]' | grep -v sha512 | head -5
-for f in $DEMOS; do mv /tmp/seed/$ID.demo/$f $f; done
+for f in $DEMOS; do mv $BASE/$ID.demo/$f $f; done
 echo "== demo WITH change (must fail)"
-go test -count=1 -timeout 10m -run 'Seeded|Demo|seeded|demo' $DEMOPKGS 2>&1 | tail -5
+go test $TAGS -count=1 -timeout 10m -run 'Seeded|Demo|seeded|demo' $DEMOPKGS 2>&1 | tail -5
 WITH=$?
 echo "== demo WITHOUT change (must pass)"
-git apply -R /tmp/seed/$ID.patch   # (git stash is shared between worktrees: never use it here)
-go test -count=1 -timeout 10m -run 'Seeded|Demo|seeded|demo' $DEMOPKGS 2>&1 | tail -3
-git apply /tmp/seed/$ID.patch
+git apply -R $BASE/$ID.patch   # (git stash is shared between worktrees: never use it here)
+go test $TAGS -count=1 -timeout 10m -run 'Seeded|Demo|seeded|demo' $DEMOPKGS 2>&1 | tail -3
+git apply $BASE/$ID.patch
 mkdir -p $OUT
-cp /tmp/seed/$ID.patch $OUT/patch.diff
+cp $BASE/$ID.patch $OUT/patch.diff
 for f in $DEMOS; do mkdir -p $OUT/demo/$(dirname $f); cp $f $OUT/demo/$f; done
 [ -f SEEDED.md ] && cp SEEDED.md $OUT/SEEDED.md
 echo "stored in $OUT"
